@@ -18,6 +18,8 @@ def check(ctx):
     repo = ctx.repo
     ctx.rule("R07.1", "generate_voronoi_vertices returns the circumcentre: equidistant from the three triangle vertices", 2)
     ctx.rule("R07.2", "edges are sorted unique site pairs; boundary = incidence count one; centres/directions/lengths are those of the site pairs", 6)
+    ctx.rule("R07.4", "cell areas are orientation independent: only unsigned area primitives (convex-hull area, abs(...)) flow into them, "
+                      "because the vertex order of the auxiliary polygons is not normalised", 2)
     ctx.rule("R07.3", "dual edge length: circumcentre-to-midpoint for one incident triangle, circumcentre-to-circumcentre for two; "
                       "adjacency stores triangle index + 1 and the reader subtracts 1", 3)
     f = repo.func(UTIL, "generate_voronoi_vertices")
@@ -114,7 +116,64 @@ def check(ctx):
     keys = [norm(n) for n in ast.walk(fd.node) if isinstance(n, ast.Call) and norm(n.func) == "frozenset"]
     ctx.ob("R07.3", "edges are matched to triangles as unordered pairs", len(keys) == 2, detail=keys, where=fd.fq, construct="edge keys",
            message=f"edge keys: {keys}", consequence="an edge misses one of its two triangles")
+    cell_area_signs(ctx)
     ctx.decline("tiling of film minus holes, Euler characteristic, positive orientation and non-degeneracy of triangles (Triangle/meshpy), "
                 "clipped Voronoi areas of boundary cells (qhull convex hulls), terminal length 'to within one edge' (matplotlib path "
                 "membership): computed by external native libraries - no static argument in reach")
     ctx.assume("terminal length sums boundary edge lengths over the terminal's boundary edges: decided under C01 R01.4")
+
+
+def cell_area_signs(ctx):
+    """R07.4: a signed area (det / cross based) must not flow into the Voronoi cell areas unless its input was oriented or abs() is taken."""
+    from ..dataflow import expand
+    repo = ctx.repo
+    # signed-area functions of the library: return value built from det / cross without abs
+    signed = set()
+    for g in repo.module(UTIL).functions.values():
+        src = norm(g.node)
+        if ("linalg.det(" in src or "np.cross(" in src) and "abs(" not in src and "absolute(" not in src:
+            signed.add(g.qual)
+    ctx.note("signed_area_functions", sorted(signed))
+    f = repo.func(UTIL, "compute_voronoi_polygon_areas")
+    fn = f.node
+    rets = [n.value for n in own_nodes(fn) if isinstance(n, ast.Return)]
+    if len(rets) != 1 or not isinstance(rets[0], ast.Tuple):
+        raise AnalysisError("compute_voronoi_polygon_areas no longer returns (areas, polygons)")
+    res = norm(rets[0].elts[0])
+    stores = []
+    for n in own_nodes(fn):
+        if isinstance(n, ast.Assign):
+            for t in n.targets:
+                ts = t.elts if isinstance(t, ast.Tuple) else [t]
+                for i, x in enumerate(ts):
+                    if isinstance(x, ast.Subscript) and norm(x.value) == res:
+                        stores.append((n, n.value))
+        elif isinstance(n, ast.AugAssign) and isinstance(n.target, ast.Subscript) and norm(n.target.value) == res:
+            stores.append((n, n.value))
+    if len(stores) < 3:
+        raise AnalysisError(f"expected >=3 stores into the cell-area array, found {len(stores)}")
+    bad = []
+    for st, val in stores:
+        e = expand(fn, val)
+        for c in ast.walk(e):
+            if isinstance(c, ast.Call):
+                nm = norm(c.func).split(".")[-1]
+                if nm in signed or nm in ("det", "cross"):
+                    oriented = any(isinstance(a, ast.Call) and norm(a.func).endswith("orient_convex_polygon") for a in c.args)
+                    under_abs = False
+                    for w in ast.walk(e):
+                        if isinstance(w, ast.Call) and norm(w.func).split(".")[-1] in ("abs", "absolute", "fabs") and any(x is c for x in ast.walk(w)):
+                            under_abs = True
+                    if not oriented and not under_abs:
+                        bad.append(f"L{st.lineno}: {norm(st)[:80]}")
+    ctx.ob("R07.4", "only unsigned area primitives flow into the cell areas", not bad, detail={"stores": [norm(s_)[:70] for s_, _ in stores], "signed_flows": bad},
+           where=f.fq, construct="signed area flowing into cell areas", loc=loc(f, fn),
+           message=f"a signed (orientation dependent) area is added to / subtracted from a cell area: {bad}",
+           consequence="at boundary sites where the auxiliary triangle (midpoint, site, midpoint) happens to be clockwise - reentrant corners, "
+                       "notches, the index wrap-around sites of a hole - the correction has the wrong sign and the cell area is too large",
+           witness={"input": "L-shaped film: the cell at the 270-degree corner"})
+    fh = repo.func(UTIL, "get_convex_polygon_area")
+    src = norm(fh.node)
+    ok = "ConvexHull(" in src and "hull.volume" in src
+    ctx.ob("R07.4", "get_convex_polygon_area returns the (unsigned) convex-hull area", ok, where=fh.fq, construct="get_convex_polygon_area",
+           message="get_convex_polygon_area no longer returns hull.volume", consequence="cell areas depend on vertex order")
